@@ -5,7 +5,7 @@ import (
 )
 
 func init() {
-	register("C03", genC03)
+	register("C03", func(c *Ctx) { genParse(c); genC03(c) })
 	replayers["c03.journal"] = func(c *Ctx, m map[string]any) map[string]any {
 		text := unhx(m["text"].(string))
 		return c03Case(text, m["truth"])
